@@ -54,10 +54,10 @@ type Node struct {
 }
 
 const (
-	FPhp7Only = 1 << iota // syntax the PHP 5 grammar does not have
-	FUVS                  // grouping changed with uniform variable syntax (excluded from the common subset)
-	FFlex73               // flexible heredoc terminator (7.3+)
-	FKnownDiff            // constructs with recorded PHP5/PHP7 divergences (excluded from C10's subset)
+	FPhp7Only  = 1 << iota // syntax the PHP 5 grammar does not have
+	FUVS                   // grouping changed with uniform variable syntax (excluded from the common subset)
+	FFlex73                // flexible heredoc terminator (7.3+)
+	FKnownDiff             // constructs with recorded PHP5/PHP7 divergences (excluded from C10's subset)
 )
 
 func (n *Node) HasFlag(f int) bool {
@@ -176,23 +176,23 @@ func (n *Node) CountKinds(m map[string]int) {
 
 // Opts selects the language family and the subset.
 type Opts struct {
-	Fam      int  // 5 or 7
-	Common   bool // only syntax PHP 5 and PHP 7 share with the same meaning (C10)
-	Flex73   bool // allow flexible heredoc terminators (version >= 7.3)
-	MaxDepth int
-	MaxStmts int
-	NoHTML   bool // stay in PHP mode (for composition with statement-level edits)
+	Fam       int  // 5 or 7
+	Common    bool // only syntax PHP 5 and PHP 7 share with the same meaning (C10)
+	Flex73    bool // allow flexible heredoc terminators (version >= 7.3)
+	MaxDepth  int
+	MaxStmts  int
+	NoHTML    bool // stay in PHP mode (for composition with statement-level edits)
 	Formatter bool // avoid the constructs on which the formatter is known to fail (C17 composes programs from the rest)
 }
 
 // G is the generator state for one program.
 type G struct {
-	R       *core.Rand
-	O       Opts
-	n       int
-	Ops     map[string]int // operator pair coverage: "parent>child"
-	labels  int
-	inClass int
+	R           *core.Rand
+	O           Opts
+	n           int
+	Ops         map[string]int // operator pair coverage: "parent>child"
+	labels      int
+	inClass     int
 	inHeredoc   int
 	dollarFirst int // >0: the variable expression being built must start with '$' + name
 }
@@ -209,9 +209,9 @@ func NewG(r *core.Rand, o Opts) *G {
 
 func (g *G) php7() bool { return g.O.Fam == 7 && !g.O.Common }
 
-func t(s string) Tok            { return Tok{S: s} }
-func tn(s string) Tok           { return Tok{S: s, Gap: GapNone} }
-func tg(s string, gap int) Tok  { return Tok{S: s, Gap: gap} }
+func t(s string) Tok               { return Tok{S: s} }
+func tn(s string) Tok              { return Tok{S: s, Gap: GapNone} }
+func tg(s string, gap int) Tok     { return Tok{S: s, Gap: gap} }
 func one(role string, n *Node) Kid { return Kid{Role: role, N: n} }
 func list(role string, l []*Node) Kid {
 	return Kid{Role: role, L: l, List: true}
@@ -706,7 +706,10 @@ var unops = []unop{
 	{"ExprBooleanNot", "!", 23, "Expr"}, {"ExprBitwiseNot", "~", 25, "Expr"}, {"ExprUnaryMinus", "-", 25, "Expr"}, {"ExprUnaryPlus", "+", 25, "Expr"}, {"ExprErrorSuppress", "@", 25, "Expr"},
 }
 
-var casts = []struct{ kind string; words []string }{
+var casts = []struct {
+	kind  string
+	words []string
+}{
 	{"ExprCastArray", []string{"array"}}, {"ExprCastBool", []string{"bool", "boolean"}}, {"ExprCastDouble", []string{"double", "float", "real"}},
 	{"ExprCastInt", []string{"int", "integer"}}, {"ExprCastObject", []string{"object"}}, {"ExprCastString", []string{"string", "binary"}}, {"ExprCastUnset", []string{"unset"}},
 }
